@@ -108,7 +108,14 @@ public:
 
 		~DisableQueueNotify()
 		{
-			--queue->queueNotifyCounter;
+			{
+				// The counter must be decreased while holding the mutex which a waiting thread
+				// holds when it evaluates its predicate. Otherwise the waiting thread can see
+				// the old counter, then miss the notification below before it blocks, and
+				// sleep forever even there are events in the queue.
+				std::lock_guard<Mutex> queueListLock(queue->queueListMutex);
+				--queue->queueNotifyCounter;
+			}
 
 			if(queue->doCanNotifyQueueAvailable() && ! queue->emptyQueue()) {
 				queue->queueListConditionVariable.notify_one();
